@@ -2,10 +2,10 @@
  * LevelDB block format (C16/ref.h), and the built block fed to lcdb's own
  * block iterator (table/block.c).
  *
- * Concrete per query: VP_N entries (0..3), VP_R restart interval (1..3),
+ * Concrete per query: VP_N entries (0..4), VP_R restart interval (1..3),
  * VP_PRE entries added to the same builder before a finish()+reset() (0 = a
- * fresh builder), the key lengths VP_K0..VP_K2 (0..VP_KMAX) and the value
- * lengths VP_V0..VP_V2 (0..VP_VMAX).  Symbolic: all key and value bytes,
+ * fresh builder), the key lengths VP_K0..VP_K3 (0..VP_KMAX) and the value
+ * lengths VP_V0..VP_V3 (0..VP_VMAX).  Symbolic: all key and value bytes,
  * strictly increasing keys (the documented precondition of ldb_blockgen_add);
  * in mode 1 also the seek target (VP_TL bytes).
  *
@@ -68,8 +68,14 @@
 #endif
 #define VP_NN (VP_N > 0 ? VP_N : 1)
 
-static const size_t vp_klen[3] = { VP_K0, VP_K1, VP_K2 };
-static const size_t vp_vlen[3] = { VP_V0, VP_V1, VP_V2 };
+#ifndef VP_K3
+#define VP_K3 1
+#endif
+#ifndef VP_V3
+#define VP_V3 0
+#endif
+static const size_t vp_klen[4] = { VP_K0, VP_K1, VP_K2, VP_K3 };
+static const size_t vp_vlen[4] = { VP_V0, VP_V1, VP_V2, VP_V3 };
 
 static uint8_t vp_kb[VP_NN][VP_KMAX];
 static uint8_t vp_vb[VP_NN][VP_VMAX > 0 ? VP_VMAX : 1];
